@@ -15,19 +15,21 @@ import (
 )
 
 type HarnessOpts struct {
-	Prop       string
-	Tier       string // quick | thorough (harness runs in tiers >= this)
-	Backend    string // bv | lia | nra
-	TimeoutS   int
-	MaxPaths   int
-	MaxSteps   int64
-	PanicsOK   bool // paths ending in a Go panic are ignored (documented-precondition harnesses)
-	NoMerge    bool
-	Solvers    []string
-	ExpectFail bool // selftest harness: must be violated
-	MaxConc    int
-	Use        []string
-	Workers    int
+	Prop          string
+	Tier          string // quick | thorough (harness runs in tiers >= this)
+	Backend       string // bv | lia | nra
+	TimeoutS      int
+	MaxPaths      int
+	MaxSteps      int64
+	PanicsOK      bool // paths ending in a Go panic are ignored (documented-precondition harnesses)
+	NoMerge       bool
+	Solvers       []string
+	ExpectFail    bool // selftest harness: must be violated
+	MaxConc       int
+	Use           []string
+	Workers       int
+	AssertWorkers int
+	SyncAsserts   bool
 }
 
 type Stats struct {
@@ -53,9 +55,9 @@ type Finding struct {
 	Lens    map[string]int
 	Path    []int
 	Harness string
-	Replay  string // path of replay file
-	Known   string // matched known-finding id
-	Status  string // confirmed | unconfirmed | spurious
+	Replay  string     // path of replay file
+	Known   string     // matched known-finding id
+	Status  string     // confirmed | unconfirmed | spurious
 	UFDep   bool       // path condition mentions uninterpreted functions
 	Alts    []*Finding `json:"-"`
 }
@@ -73,7 +75,10 @@ type HarnessRun struct {
 	prog    *ssa.Program
 	opts    HarnessOpts
 	b       *Builder
-	solvers map[string]*Solver
+	ss      *solverSet
+	pool    []*solverSet
+	pending []*pendingAssert
+	dumpN   int
 
 	// per path
 	prefix    []int
@@ -114,7 +119,7 @@ type HarnessRun struct {
 }
 
 func newHarnessRun(name string, fn *ssa.Function, prog *ssa.Program, opts HarnessOpts) *HarnessRun {
-	r := &HarnessRun{Name: name, fn: fn, prog: prog, opts: opts, solvers: map[string]*Solver{},
+	r := &HarnessRun{Name: name, fn: fn, prog: prog, opts: opts, ss: newSolverSet(),
 		obls: map[string]*OblStat{}, assumes: map[string]bool{}, stubs: map[string]bool{}, funcs: map[string]bool{},
 		reached: map[string]bool{}, seenFind: map[string]bool{}, stubFns: map[string]*ssa.Function{}}
 	r.stats.SolverSecs = map[string]float64{}
@@ -145,13 +150,42 @@ func newHarnessRun(name string, fn *ssa.Function, prog *ssa.Program, opts Harnes
 }
 
 func (r *HarnessRun) closeSolvers() {
-	for _, s := range r.solvers {
+	r.ss.close()
+	for _, p := range r.pool {
+		p.close()
+	}
+}
+
+// query: is (pc ∧ extra) satisfiable?
+type prepared struct {
+	script  string
+	vars    []*Term
+	backend string
+	trivial *SolveResult
+	full    bool
+}
+
+// solverSet: solver processes + statistics owned by one goroutine.
+type solverSet struct {
+	solvers map[string]*Solver
+	stats   Stats
+	notes   []string
+}
+
+func newSolverSet() *solverSet {
+	ss := &solverSet{solvers: map[string]*Solver{}}
+	ss.stats.SolverSecs = map[string]float64{}
+	return ss
+}
+
+func (ss *solverSet) close() {
+	for _, s := range ss.solvers {
 		s.Close()
 	}
 }
 
-func (r *HarnessRun) solver(name string) *Solver {
-	s := r.solvers[name]
+func (ss *solverSet) solver(name string) *Solver {
+	s := ss.solvers[name]
 	if s == nil || s.dead {
 		var err error
 		s, err = StartSolver(name)
@@ -159,46 +193,46 @@ func (r *HarnessRun) solver(name string) *Solver {
 			fmt.Fprintf(os.Stderr, "cannot start solver %s: %v\n", name, err)
 			return nil
 		}
-		r.solvers[name] = s
+		ss.solvers[name] = s
 	}
 	return s
 }
 
-// query: is (pc ∧ extra) satisfiable?
-func (r *HarnessRun) query(extra []*Term, wantModel bool, purpose string) SolveResult {
+func (r *HarnessRun) prepare(extra []*Term, wantModel bool) prepared {
 	asserts := r.slice(extra)
-	r.lastFull = len(asserts) == len(r.pc)+len(extra)
-	// trivial cases
+	p := prepared{full: len(asserts) == len(r.pc)+len(extra)}
 	for _, a := range asserts {
 		if a.isFalse() {
-			return SolveResult{Status: "unsat"}
+			p.trivial = &SolveResult{Status: "unsat"}
+			return p
 		}
 	}
-	var script string
 	var nodes int
-	backend := r.opts.Backend
-	if backend == "lia" || backend == "nra" {
+	p.backend = r.opts.Backend
+	if p.backend == "lia" || p.backend == "nra" {
 		s, n, err := PrintLIA(r.b, asserts)
 		if err != nil {
-			if backend == "nra" {
-				return SolveResult{Status: "unknown", Detail: err.Error()}
+			if p.backend == "nra" {
+				p.trivial = &SolveResult{Status: "unknown", Detail: err.Error()}
+				return p
 			}
 			r.note("LIA fallback to BV: " + err.Error())
-			backend = "bv"
+			p.backend = "bv"
 		} else {
-			script, nodes = s, n
+			p.script, nodes = s, n
 		}
 	}
-	if backend == "bv" || backend == "" {
-		script, nodes = PrintBV(r.b, asserts)
+	if p.backend == "bv" || p.backend == "" {
+		p.backend = "bv"
+		p.script, nodes = PrintBV(r.b, asserts)
 	}
 	if nodes > r.stats.TermNodes {
 		r.stats.TermNodes = nodes
 	}
 	if dump := os.Getenv("GOSMT_DUMP"); dump != "" {
-		os.WriteFile(fmt.Sprintf("%s/%s_%d.smt2", dump, r.Name, r.stats.Queries), []byte(script+"(check-sat)\n"), 0o644)
+		r.dumpN++
+		os.WriteFile(fmt.Sprintf("%s/%s_%d.smt2", dump, r.Name, r.dumpN), []byte(p.script+"(check-sat)\n"), 0o644)
 	}
-	var vars []*Term
 	if wantModel {
 		seen := map[int]bool{}
 		var walk func(t *Term)
@@ -208,7 +242,7 @@ func (r *HarnessRun) query(extra []*Term, wantModel bool, purpose string) SolveR
 			}
 			seen[t.ID] = true
 			if t.Op == OVar {
-				vars = append(vars, t)
+				p.vars = append(p.vars, t)
 			}
 			for _, a := range t.Args {
 				walk(a)
@@ -218,38 +252,130 @@ func (r *HarnessRun) query(extra []*Term, wantModel bool, purpose string) SolveR
 			walk(a)
 		}
 	}
-	timeout := time.Duration(r.opts.TimeoutS) * time.Second
-	var last SolveResult
-	for _, sn := range r.opts.Solvers {
+	return p
+}
+
+// query: is (pc ∧ extra) satisfiable?
+func (r *HarnessRun) query(extra []*Term, wantModel bool, purpose string) SolveResult {
+	p := r.prepare(extra, wantModel)
+	r.lastFull = p.full
+	if p.trivial != nil {
+		return *p.trivial
+	}
+	return r.ss.solve(p, purpose, r.opts)
+}
+
+func (ss *solverSet) note(s string) {
+	if len(ss.notes) < 100 {
+		ss.notes = append(ss.notes, s)
+	}
+}
+
+func (ss *solverSet) solve(p prepared, purpose string, opts HarnessOpts) SolveResult {
+	script, vars, backend := p.script, p.vars, p.backend
+	timeout := time.Duration(opts.TimeoutS) * time.Second
+	// solver configurations: name + whether to keep the (set-logic ...) line
+	type cfg struct {
+		name    string
+		noLogic bool
+	}
+	var cfgs []cfg
+	for _, sn := range opts.Solvers {
 		if backend == "lia" && sn == "cvc5" {
 			continue
 		}
-		s := r.solver(sn)
-		if s == nil {
-			continue
+		cfgs = append(cfgs, cfg{sn, false})
+		if backend == "lia" && sn == "z3new" && strings.HasPrefix(script, "(set-logic") {
+			cfgs = append(cfgs, cfg{sn, true})
 		}
-		r.stats.Queries++
-		res := s.Check(script, vars, timeout)
-		r.stats.SolverSecs[sn] += res.Secs
-		if res.Secs > r.stats.MaxQueryS {
-			r.stats.MaxQueryS = res.Secs
+	}
+	stripLogic := func(sc string) string {
+		if strings.HasPrefix(sc, "(set-logic") {
+			return sc[strings.IndexByte(sc, '\n')+1:]
 		}
-		last = res
-		if res.Status == "sat" || res.Status == "unsat" {
-			if res.Status == "sat" {
-				r.stats.Sat++
-			} else {
-				r.stats.Unsat++
+		return sc
+	}
+	record := func(name string, res SolveResult) {
+		ss.stats.Queries++
+		ss.stats.SolverSecs[name] += res.Secs
+		if res.Secs > ss.stats.MaxQueryS {
+			ss.stats.MaxQueryS = res.Secs
+		}
+	}
+	finish := func(res SolveResult) SolveResult {
+		if res.Status == "sat" {
+			ss.stats.Sat++
+		} else {
+			ss.stats.Unsat++
+		}
+		return res
+	}
+	// stage 1: primary solver, short budget
+	var last SolveResult
+	stage1 := 10 * time.Second
+	if timeout < stage1 {
+		stage1 = timeout
+	}
+	if len(cfgs) > 0 {
+		if s := ss.solver(cfgs[0].name); s != nil {
+			res := s.Check(script, vars, stage1)
+			record(cfgs[0].name, res)
+			last = res
+			if res.Status == "sat" || res.Status == "unsat" {
+				return finish(res)
 			}
-			return res
 		}
-		r.note(fmt.Sprintf("%s: %s on %s query (%s) %.1fs", sn, res.Status, purpose, firstLine(res.Detail), res.Secs))
 	}
-	r.stats.Unknown++
-	if last.Status == "" {
-		last.Status = "unknown"
+	// stage 2: race every configuration with the full budget
+	if timeout > stage1 || len(cfgs) > 1 {
+		type out struct {
+			name string
+			res  SolveResult
+		}
+		ch := make(chan out, len(cfgs))
+		var procs []*Solver
+		for _, c := range cfgs {
+			s, err := StartSolver(c.name)
+			if err != nil {
+				continue
+			}
+			procs = append(procs, s)
+			sc := script
+			if c.noLogic {
+				sc = stripLogic(sc)
+			}
+			label := c.name
+			if c.noLogic {
+				label += "-nologic"
+			}
+			go func(s *Solver, sc, label string) {
+				ch <- out{label, s.Check(sc, vars, timeout)}
+			}(s, sc, label)
+		}
+		var winner *SolveResult
+		for range procs {
+			o := <-ch
+			record(o.name, o.res)
+			if (o.res.Status == "sat" || o.res.Status == "unsat") && winner == nil {
+				w := o.res
+				winner = &w
+				for _, p := range procs {
+					p.Close()
+				}
+			} else if winner == nil {
+				last = o.res
+				ss.note(fmt.Sprintf("%s: %s on %s query (%s) %.1fs", o.name, o.res.Status, purpose, firstLine(o.res.Detail), o.res.Secs))
+			}
+		}
+		for _, p := range procs {
+			p.Close()
+		}
+		if winner != nil {
+			return finish(*winner)
+		}
 	}
-	if last.Status == "error" {
+	ss.stats.Unknown++
+	if last.Status == "" || last.Status == "error" {
 		last.Status = "unknown"
 	}
 	return last
@@ -314,6 +440,9 @@ func (r *HarnessRun) replayed() {
 
 // branch decides a symbolic If; returns true for the then-successor.
 func (r *HarnessRun) branch(e *Exec, c *Term) bool {
+	if e.spec > 0 {
+		panic(mergeFail{})
+	}
 	if r.inInit {
 		e.unsupported("symbolic branch during package init")
 	}
@@ -374,6 +503,9 @@ func (r *HarnessRun) branch(e *Exec, c *Term) bool {
 
 // choice among explicit int values (NondetLen): no solver involved.
 func (r *HarnessRun) choose(e *Exec, vals []int) int {
+	if e.spec > 0 {
+		panic(mergeFail{})
+	}
 	if r.inInit {
 		e.unsupported("nondeterministic choice during package init")
 	}
@@ -397,6 +529,9 @@ func (r *HarnessRun) choose(e *Exec, vals []int) int {
 }
 
 func (r *HarnessRun) concretize(e *Exec, t *Term, what string) int {
+	if e.spec > 0 {
+		panic(mergeFail{})
+	}
 	if r.inInit {
 		e.unsupported("symbolic size during package init")
 	}
@@ -464,6 +599,9 @@ func (r *HarnessRun) concretize(e *Exec, t *Term, what string) int {
 }
 
 func (r *HarnessRun) assume(e *Exec, c *Term, desc string) {
+	if e.spec > 0 {
+		panic(mergeFail{})
+	}
 	if desc != "" {
 		r.assumes[desc] = true
 	}
@@ -553,6 +691,9 @@ func (r *HarnessRun) obligation(e *Exec, cond *Term, desc string) {
 }
 
 func (r *HarnessRun) check(e *Exec, kind, label string, cond *Term) {
+	if e.spec > 0 {
+		panic(mergeFail{})
+	}
 	if r.inInit {
 		e.unsupported("symbolic obligation during package init")
 	}
@@ -568,39 +709,29 @@ func (r *HarnessRun) check(e *Exec, kind, label string, cond *Term) {
 		// witness already violates
 		o.Sat++
 		r.addFinding(kind, label, pos, r.witness)
+	} else if kind == "assert" && !r.opts.SyncAsserts {
+		p := r.prepare([]*Term{nc}, true)
+		if p.trivial != nil {
+			r.lastFull = p.full
+			r.finishCheck(kind, label, pos, o, nc, *p.trivial)
+			return
+		}
+		lens := map[string]int{}
+		for k, v := range r.lens {
+			lens[k] = v
+		}
+		r.pending = append(r.pending, &pendingAssert{p: p, kind: kind, label: label, pos: pos, o: o, nc: nc, pcLen: len(r.pc),
+			witness: r.witness, lens: lens, decisions: append([]int{}, r.decisions...)})
+		if len(r.pending) >= 256 {
+			r.flushAsserts()
+		}
+		return
 	} else {
 		res := r.query([]*Term{nc}, true, kind)
-		if res.Status == "sat" && r.opts.Backend == "lia" {
-			res = r.concretise(nc, res)
-		}
-		switch res.Status {
-		case "unsat":
-			o.Unsat++
+		if r.finishCheck(kind, label, pos, o, nc, res) {
 			return
-		case "sat":
-			o.Sat++
-			m := r.fullModel(res, r.lastFull)
-			if m == nil && res.Detail != "abstract" {
-				// sliced model without a witness for the rest of the path condition: re-solve unsliced
-				save := r.noSlice
-				r.noSlice = true
-				full := r.query([]*Term{nc}, true, kind+"-fullmodel")
-				r.noSlice = save
-				if full.Status == "sat" {
-					m = full.Model
-				}
-			}
-			if m == nil {
-				m = res.Model
-			}
-			r.addFinding(kind, label, pos, m)
-			if res.Detail == "abstract" {
-				r.findings[len(r.findings)-1].Status = "abstract"
-			}
-		default:
-			o.Unk++
-			o.Detail = firstLine(res.Detail)
-			r.incon = append(r.incon, fmt.Sprintf("%s %q at %s: solver %s", kind, label, pos, res.Status))
+		}
+		if res.Status != "sat" {
 			return
 		}
 	}
@@ -616,7 +747,6 @@ func (r *HarnessRun) check(e *Exec, kind, label string, cond *Term) {
 	}
 }
 
-// runAll explores all paths.
 type workQueue struct {
 	mu      sync.Mutex
 	cond    *sync.Cond
@@ -718,6 +848,21 @@ func (r *HarnessRun) runAll(workers int) {
 		}(s)
 	}
 	wg.Wait()
+	for _, s := range shards {
+		for _, ss := range append([]*solverSet{s.ss}, s.pool...) {
+			s.stats.Queries += ss.stats.Queries
+			s.stats.Unsat += ss.stats.Unsat
+			s.stats.Sat += ss.stats.Sat
+			s.stats.Unknown += ss.stats.Unknown
+			if ss.stats.MaxQueryS > s.stats.MaxQueryS {
+				s.stats.MaxQueryS = ss.stats.MaxQueryS
+			}
+			for k, v := range ss.stats.SolverSecs {
+				s.stats.SolverSecs[k] += v
+			}
+			s.log = append(s.log, ss.notes...)
+		}
+	}
 	if q.stopped {
 		r.incon = append(r.incon, fmt.Sprintf("path limit %d reached with %d prefixes pending", r.opts.MaxPaths, len(q.items)))
 	}
@@ -823,7 +968,16 @@ func (r *HarnessRun) runPath(prefix []int) {
 	}()
 	defer func() {
 		r.stats.Steps += e.steps
-		if rec := recover(); rec != nil {
+		rec := recover()
+		func() {
+			defer func() {
+				if r2 := recover(); r2 != nil {
+					r.incon = append(r.incon, fmt.Sprintf("assert flush crashed: %v", r2))
+				}
+			}()
+			r.flushAsserts()
+		}()
+		if rec != nil {
 			pe, ok := rec.(*pathEnd)
 			if !ok {
 				if _, isMerge := rec.(mergeFail); isMerge {
@@ -1085,4 +1239,99 @@ func (r *HarnessRun) slice(extra []*Term) []*Term {
 		}
 	}
 	return append(out, extra...)
+}
+
+type pendingAssert struct {
+	p         prepared
+	kind      string
+	label     string
+	pos       string
+	o         *OblStat
+	nc        *Term
+	pcLen     int
+	witness   map[string]*big.Int
+	lens      map[string]int
+	decisions []int
+}
+
+// flushAsserts solves the queued assertion queries in parallel (they do not influence control
+// flow) and post-processes the answers in program order.
+func (r *HarnessRun) flushAsserts() {
+	pend := r.pending
+	r.pending = nil
+	if len(pend) == 0 {
+		return
+	}
+	nw := r.opts.AssertWorkers
+	if nw <= 0 {
+		nw = 6
+	}
+	if nw > len(pend) {
+		nw = len(pend)
+	}
+	for len(r.pool) < nw {
+		r.pool = append(r.pool, newSolverSet())
+	}
+	results := make([]SolveResult, len(pend))
+	var wg sync.WaitGroup
+	next := make(chan int, len(pend))
+	for i := range pend {
+		next <- i
+	}
+	close(next)
+	for k := 0; k < nw; k++ {
+		wg.Add(1)
+		go func(ss *solverSet) {
+			defer wg.Done()
+			for i := range next {
+				results[i] = ss.solve(pend[i].p, pend[i].kind, r.opts)
+			}
+		}(r.pool[k])
+	}
+	wg.Wait()
+	savePC, saveW, saveL, saveD := r.pc, r.witness, r.lens, r.decisions
+	for i, pa := range pend {
+		r.pc = savePC[:pa.pcLen]
+		r.witness, r.lens, r.decisions = pa.witness, pa.lens, pa.decisions
+		r.lastFull = pa.p.full
+		r.finishCheck(pa.kind, pa.label, pa.pos, pa.o, pa.nc, results[i])
+	}
+	r.pc, r.witness, r.lens, r.decisions = savePC, saveW, saveL, saveD
+}
+
+// finishCheck records the verdict of one obligation query.
+func (r *HarnessRun) finishCheck(kind, label, pos string, o *OblStat, nc *Term, res SolveResult) bool {
+	if res.Status == "sat" && r.opts.Backend == "lia" {
+		res = r.concretise(nc, res)
+	}
+	switch res.Status {
+	case "unsat":
+		o.Unsat++
+		return true
+	case "sat":
+		o.Sat++
+		m := r.fullModel(res, r.lastFull)
+		if m == nil && res.Detail != "abstract" {
+			// sliced model without a witness for the rest of the path condition: re-solve unsliced
+			save := r.noSlice
+			r.noSlice = true
+			full := r.query([]*Term{nc}, true, kind+"-fullmodel")
+			r.noSlice = save
+			if full.Status == "sat" {
+				m = full.Model
+			}
+		}
+		if m == nil {
+			m = res.Model
+		}
+		r.addFinding(kind, label, pos, m)
+		if res.Detail == "abstract" {
+			r.findings[len(r.findings)-1].Status = "abstract"
+		}
+	default:
+		o.Unk++
+		o.Detail = firstLine(res.Detail)
+		r.incon = append(r.incon, fmt.Sprintf("%s %q at %s: solver %s", kind, label, pos, res.Status))
+	}
+	return false
 }
